@@ -5,7 +5,7 @@ python3 - "$id" "$d" "$3" "$4" <<'PY'
 import json,sys
 id,d,detected,notes=sys.argv[1:5]
 m=json.load(open(f'/tmp/mut/{id}/meta.json'))
-out={"property":id,"summary":m.get("summary"),"needs_to_manifest":m.get("needs_to_manifest"),"demo_pkg_dir":m.get("demo_pkg_dir"),"demo_cmd":m.get("demo_cmd"),
+out={"property":id[:3],"round":(2 if len(id)>3 else 1),"summary":m.get("summary"),"needs_to_manifest":m.get("needs_to_manifest"),"demo_pkg_dir":m.get("demo_pkg_dir"),"demo_cmd":m.get("demo_cmd"),
  "origin":"independent sub-agent given only the property text and a scratch worktree",
  "confirmed_by_me":{"builds":True,"demo_fails_with_patch":True,"demo_passes_without_patch":True,"baseline_suite_passes_with_patch":True,"how":"tools/confirm_mutation.sh (fresh checkout in a scratch worktree: demo without/with patch, then the 883-test baseline with the patch and without the demo)"},
  "detected_by":detected,"notes":notes}
